@@ -53,3 +53,17 @@ void err(int i, int kind) {
     case 6: t = ([ "a" : v, "b" : ({ v }) ]); catch(map_mapping(t, (: boom($2) :))); error("after " + sizeof(t) + "\n"); break;
   }
 }
+// many holders of one value: n references kept in arrays of 10000 slots each
+mixed *hold;
+void many(int i, int n) {
+  mixed v = get(i);
+  int k, j, m;
+  hold = allocate((n + 9999) / 10000);
+  for (k = 0; k < sizeof(hold); k++) {
+    m = n - k * 10000; if (m > 10000) m = 10000;
+    hold[k] = allocate(m);
+    for (j = 0; j < m; j++) hold[k][j] = v;
+  }
+}
+void unmany() { hold = 0; }
+int probe(int i) { mixed v = get(i); if (arrayp(v)) return sizeof(v); if (mapp(v)) return sizeof(v); return -1; }
